@@ -121,6 +121,13 @@ class PropertyRun:
     def gen_vcs(self):
         for key, c in self.reg.fns.items():
             if c.prop and c.prop != self.pid and self.pid not in c.also:
+                # a contract verified under another property and used here as a callee: its function must still exist and still be
+                # what its name denotes (not wrapped by a decorator) - otherwise what is assumed at its call sites is out of date
+                if c.verify and not c.source and c.relpath:
+                    try:
+                        extract(c.relpath, c.qualname)
+                    except StaleContract as e:
+                        self.stale.append(f"{c.key} (callee contract, verified under {c.prop}): {e}")
                 continue
             if not c.verify:
                 self.assumptions.append(f"assumed contract (not verified here): {c.key} - {c.doc}")
